@@ -4,6 +4,7 @@
 -/
 import PcVerif.Model.Scc.Finish
 import PcVerif.Lemmas.ItalicsLemmas
+import PcVerif.Lemmas.RollupLemmas
 import Mathlib.Tactic.Linarith
 import Mathlib.Tactic.NormNum
 import Mathlib.Tactic.Positivity
@@ -72,5 +73,11 @@ theorem skipRedundant_alternates (l : List INode) : AltFrom true (styles (skipRe
 /-- non-vacuity: off, on, text, on, text, repositioning, text -/
 example : styles (formatItalics [⟨.ioff, [], (1, 0)⟩, ⟨.ion, [], (1, 0)⟩, ⟨.text, ['a'], (1, 0)⟩, ⟨.ion, [], (1, 0)⟩,
     ⟨.text, ['b'], (1, 0)⟩, ⟨.repos, [], (3, 0)⟩, ⟨.text, ['c'], (3, 0)⟩]) = [true, false, true, false] := by decide
+
+/-- **C05 (characters survive the italics normalisation).** the seven passes of `_format_italics` and the final clean-up
+    keep every visible character exactly once and in order — they only add, move or drop style nodes, drop empty text
+    nodes and trailing breaks, and trim blanks at line ends -/
+theorem formatItalics_keeps_characters (coll : List INode) :
+    vis (itext (formatItalics coll)) = vis (itext coll) := ivis_formatItalics coll
 
 end PcVerif.Props.C05
